@@ -25,7 +25,8 @@ RULE = (
     "clock start, clock stepping/jumping backwards between files, PYTHONHASHSEED (fresh interpreter), process age "
     "(another generator run earlier in the same interpreter), cold vs warm process, cwd, absolute location of inputs, "
     "absolute location of outputs, relative vs absolute spelling, directory enumeration order, umask, environment "
-    "(TZ, LANG, HOME), lookup directories via DSDL_INCLUDE_PATH in another order, mtime/mode of input files. "
+    "(TZ, LANG, HOME), lookup directories via DSDL_INCLUDE_PATH in another order, mtime/mode of input files, machine history "
+    "(earlier processes of the same user with other options sharing TMPDIR, HOME and the cache directory). "
     "Distinct = digest of (language, options, set of perturbed dimensions with their values); non-trivial = the "
     "baseline run succeeded and at least one perturbed world was compared with it."
 )
